@@ -82,8 +82,8 @@ Definition update_kkt (d : Data) (k : KKT) : res KKT :=
   let n := d_n d in
   do w <- (if Nat.ltb 0 (d_m d) then vinv (vaddc (k_delta k) (vmul (k_z_inv k) (k_s k))) else Ok []) ;;
   do dinv <- (if Nat.ltb 0 (d_p d) then qinv (k_delta k) else Ok 0) ;;
-  do bd0 <- box_diag (k_delta k) (vconst n 0) (d_lb_idx d) (d_lb_scaling d) (k_z_lb_inv k) (k_s_lb k) ;;
-  do bd <- box_diag (k_delta k) bd0 (d_ub_idx d) (d_ub_scaling d) (k_z_ub_inv k) (k_s_ub k) ;;
+  do bd0 <- box_diag (k_delta k) (vconst n 0) (d_lb_idx d) (head (d_nlb d) (d_lb_scaling d)) (k_z_lb_inv k) (k_s_lb k) ;;
+  do bd <- box_diag (k_delta k) bd0 (d_ub_idx d) (head (d_nub d) (d_ub_scaling d)) (k_z_ub_inv k) (k_s_ub k) ;;
   let rows := lower_rows n (fun i j =>
       mentry (d_P d) j i
       + (if Nat.eqb i j then k_rho k + nth i bd 0 else 0)
